@@ -80,6 +80,10 @@ type Arm struct{ C30, C31, C32, C49 bool }
 type TW struct {
 	ksim.Base
 	NChains int
+	// Topo lists the links as pairs of chains (nil = a line 0-1, 1-2, ...). Two links between the same
+	// two chains are allowed (two client pairs / connections / transfer channels).
+	Topo  [][2]int
+	Links []int // links transfers may use (nil = all)
 
 	// alphabet
 	SendFrom   []int    // chains that may originate transfers (nil = all)
@@ -148,7 +152,7 @@ func mustAcc(s string) sdk.AccAddress {
 }
 
 // candidate path identifiers (verified against the real ones in Init)
-var pathIDs = []string{"channel-0", "channel-1", "07-tendermint-0", "07-tendermint-1"}
+var pathIDs = []string{"channel-0", "channel-1", "channel-2", "channel-3", "07-tendermint-0", "07-tendermint-1", "07-tendermint-2", "07-tendermint-3"}
 
 // tracked maps raw address bytes to a readable name for every account the state key and the
 // oracles cover: the users of all chains, the relayer, the transfer module account, one blocked
@@ -217,7 +221,19 @@ func splitBalanceKey(key []byte) (addr []byte, denom string, ok bool) {
 // over the alias share it), kind 1 = the pair of tendermint clients (direct v2 traffic).
 func pathIdx(link, kind int) int { return link*2 + kind }
 
-func (s *TW) nPaths() int { return 2 * (s.NChains - 1) }
+// topo returns the links of the world.
+func (s *TW) topo() [][2]int {
+	if s.Topo != nil {
+		return s.Topo
+	}
+	var t [][2]int
+	for i := 0; i+1 < s.NChains; i++ {
+		t = append(t, [2]int{i, i + 1})
+	}
+	return t
+}
+
+func (s *TW) nPaths() int { return 2 * len(s.topo()) }
 
 // idOn is the identifier of path p as chain c knows it.
 func (s *TW) idOn(p, c int) string {
@@ -244,17 +260,18 @@ func (s *TW) clientOn(link, c int) string {
 }
 
 func (s *TW) peer(link, c int) int {
-	if c == link {
-		return link + 1
+	t := s.topo()[link]
+	if c == t[0] {
+		return t[1]
 	}
-	return link
+	return t[0]
 }
 
 // linksOf lists the links chain c takes part in.
 func (s *TW) linksOf(c int) []int {
 	var out []int
-	for l := 0; l < s.NChains-1; l++ {
-		if c == l || c == l+1 {
+	for l, t := range s.topo() {
+		if c == t[0] || c == t[1] {
 			out = append(out, l)
 		}
 	}
@@ -272,10 +289,21 @@ func (s *TW) Init(wk *ksim.Worker) *ksim.World {
 	w := wk.Root()
 	e := &Ext{Commits: make([]int, s.NChains), EscrowRef: map[string]sdkmath.Int{}, Supply0: map[string]sdkmath.Int{}, Total0: map[int]sdkmath.Int{}}
 	w.Ext = e
-	links := make([]linkInfo, s.NChains-1)
-	for i := range links {
-		l := w.SetupClients(i, i+1)
+	topo := s.topo()
+	links := make([]linkInfo, len(topo))
+	// Every identifier must differ between the two ends of every link, so that a handler using the wrong
+	// end's identifier cannot go unnoticed: a dummy client on chain 1 and a dangling ChanOpenInit on chain 0
+	// shift the counters. Two chains: A has 07-tendermint-0 / channel-1, B has 07-tendermint-1 / channel-0
+	// (a second A-B link: A 07-tendermint-1 / channel-2, B 07-tendermint-2 / channel-1, so an identifier of one
+	// link's far end is at the same time the near end's identifier of the other link).
+	_, dr := w.CreateClient(1, 0)
+	ksim.MustOK("dummy client on chain 1", dr)
+	for i, t := range topo {
+		l := w.SetupClients(t[0], t[1])
 		w.SetupConnection(l, 0)
+		if i == 0 {
+			ksim.MustOK("dangling channel end on chain 0", w.Tx(t[0], channeltypes.NewMsgChannelOpenInit(Port, transfertypes.V1, channeltypes.UNORDERED, []string{l.ConnA}, Port, ksim.Signer)))
+		}
 		ch := w.SetupChannel(l, Port, Port, transfertypes.V1, channeltypes.UNORDERED)
 		w.RegisterCounterparties(l)
 		links[i] = linkInfo{L: l, Ch: ch}
@@ -293,10 +321,14 @@ func (s *TW) Init(wk *ksim.Worker) *ksim.World {
 	}
 	initMu.Unlock()
 	for p := 0; p < s.nPaths(); p++ {
-		for _, c := range []int{p / 2, p/2 + 1} {
+		t := topo[p/2]
+		for _, c := range t {
 			if _, ok := tracked[string(s.escrowAddr(p, c))]; !ok {
 				panic("tokenworld: unexpected path identifier " + s.idOn(p, c))
 			}
+		}
+		if s.idOn(p, t[0]) == s.idOn(p, t[1]) {
+			panic("tokenworld: both ends of a path use the identifier " + s.idOn(p, t[0]))
 		}
 	}
 	// funding: user0 gets 2 stake + 2 a/b, user1 gets 1 stake (small balances keep "all" != "1" and the space small)
@@ -331,9 +363,9 @@ func (s *TW) Init(wk *ksim.Worker) *ksim.World {
 	for c := range w.CS {
 		w.Commit(c, ksim.BlockStep)
 	}
-	for i, li := range links {
-		ksim.MustOK("final update A", w.UpdateLatest(i, li.L.ClientA, i+1))
-		ksim.MustOK("final update B", w.UpdateLatest(i+1, li.L.ClientB, i))
+	for _, li := range links {
+		ksim.MustOK("final update A", w.UpdateLatest(li.L.A, li.L.ClientA, li.L.B))
+		ksim.MustOK("final update B", w.UpdateLatest(li.L.B, li.L.ClientB, li.L.A))
 	}
 	w.Obs = nil
 	// reference values of the conservation oracle
